@@ -252,8 +252,8 @@ struct Pools {
 
 fn pools() -> Pools {
     Pools {
-        a: (0..6).map(|k| wu(0x1000 + k).as_u128()).collect(),
-        b: (0..6).map(|k| wu(0x2000 + k).as_u128()).collect(),
+        a: (0..10).map(|k| wu(0x1000 + k).as_u128()).collect(),
+        b: (0..10).map(|k| wu(0x2000 + k).as_u128()).collect(),
         natives: vec![wu(0x300).as_u128(), wu(0x301).as_u128()],
         native_group: wu(0x310).as_u128(),
         recycled: wu(0x320).as_u128(),
@@ -271,6 +271,10 @@ fn name_of(id: u128, variant: u64) -> String {
 }
 
 fn gen_entry(rng: &mut Rng, p: &Pools, agreement: u8, batch_ids: &[u128], clean: bool) -> SEntry {
+    gen_entry_id(rng, p, agreement, batch_ids, clean, None)
+}
+
+fn gen_entry_id(rng: &mut Rng, p: &Pools, agreement: u8, batch_ids: &[u128], clean: bool, force: Option<u128>) -> SEntry {
     let own = if agreement == 0 { &p.a } else { &p.b };
     let other = if agreement == 0 { &p.b } else { &p.a };
     let r = if clean { 0 } else { rng.below(100) };
@@ -305,6 +309,7 @@ fn gen_entry(rng: &mut Rng, p: &Pools, agreement: u8, batch_ids: &[u128], clean:
     } else {
         *rng.pick(own)
     };
+    let id = force.unwrap_or(id);
     let is_group = (id & 1) == 1 && id != p.recycled;
     let mut schemas: Vec<String> = if is_group {
         vec![format!("{SCIM_SCHEMA_SYNC_1}group")]
@@ -343,7 +348,7 @@ fn gen_entry(rng: &mut Rng, p: &Pools, agreement: u8, batch_ids: &[u128], clean:
                 let m = match rng.below(6) {
                     0 | 1 => *rng.pick(&p.natives),
                     2 | 3 if !batch_ids.is_empty() => *rng.pick(batch_ids),
-                    4 => *rng.pick(own),
+                    4 if !clean => *rng.pick(own),
                     _ => *rng.pick(&p.natives),
                 };
                 ms.push(m);
@@ -354,13 +359,14 @@ fn gen_entry(rng: &mut Rng, p: &Pools, agreement: u8, batch_ids: &[u128], clean:
             attrs.insert("description".into(), AVal::Str(format!("d{}", rng.below(3))));
         }
     } else {
-        if rng.chance(9, 10) {
+        if clean || rng.chance(9, 10) {
             attrs.insert("displayname".into(), AVal::Str(format!("dn{}", rng.below(3))));
         }
         if rng.chance(1, 2) {
             attrs.insert("legalname".into(), AVal::Str(format!("ln{}", rng.below(3))));
         }
-        if rng.chance(1, 3) {
+        if !clean && rng.chance(1, 12) {
+            // `description` is not an attribute of person / account: a probe
             attrs.insert("description".into(), AVal::Str(format!("d{}", rng.below(3))));
         }
         if rng.chance(1, 4) {
@@ -451,7 +457,7 @@ const YIELDABLE: &[&str] =
 
 fn gen_op(rng: &mut Rng, p: &Pools, boundary_heavy: bool) -> Op {
     let r = rng.below(100);
-    if r < 64 {
+    if r < 58 {
         let agreement = rng.below(2) as u8;
         let clean = boundary_heavy_clean(rng, boundary_heavy);
         let ident = match if clean { 9 } else { rng.below(30) } {
@@ -462,7 +468,7 @@ fn gen_op(rng: &mut Rng, p: &Pools, boundary_heavy: bool) -> Op {
             4 => IdentSpec::Internal,
             _ => IdentSpec::Synch(agreement, 2),
         };
-        let from = match if clean { 1 + rng.below(9) } else { rng.below(10) } {
+        let from = match if clean { 2 + rng.below(22) } else { rng.below(12) } {
             0 => St::Cookie(vec![9, 9, 9]),
             1 | 2 => St::Refresh,
             _ => St::Current,
@@ -478,17 +484,28 @@ fn gen_op(rng: &mut Rng, p: &Pools, boundary_heavy: bool) -> Op {
             _ => 3,
         };
         let own = if agreement == 0 { &p.a } else { &p.b };
-        let batch: Vec<u128> = (0..2).map(|_| *rng.pick(own)).collect();
-        let entries: Vec<SEntry> = (0..n).map(|_| { let c = clean || rng.chance(1, 2); gen_entry(rng, p, agreement, &batch, c) }).collect();
-        let retain = match if clean { rng.below(8) } else { rng.below(10) } {
-            0..=4 => Ret::Ignore,
-            5 | 6 if !clean => {
+        let mut entries: Vec<SEntry> = vec![];
+        for _ in 0..n {
+            let c = clean || rng.chance(1, 2);
+            // members may name the entries already in this request (their stubs exist in phase 3)
+            let batch: Vec<u128> = entries.iter().map(|e| e.id).collect();
+            let e = gen_entry(rng, p, agreement, &batch, c);
+            entries.push(e);
+        }
+        let retain = match if clean { rng.below(14) } else { 8 + rng.below(10) } {
+            0..=9 => Ret::Ignore,
+            10 => Ret::Delete(vec![*rng.pick(own)]),
+            11 => Ret::Delete(vec![*rng.pick(&own[..4]), *rng.pick(&own[..4])]),
+            12 | 13 => {
+                let mut keep: Vec<u128> = own.iter().copied().filter(|_| rng.chance(15, 16)).collect();
+                keep.extend(gen_ids(rng, p, agreement, 1));
+                Ret::Retain(keep)
+            }
+            14 | 15 => {
                 let k = rng.below(3);
                 Ret::Delete(gen_ids(rng, p, agreement, k))
             }
-            5 | 6 => Ret::Delete(vec![*rng.pick(own), *rng.pick(own)]),
-            7 => Ret::Delete(vec![*rng.pick(own)]),
-            8 => {
+            16 => {
                 let mut keep: Vec<u128> = own.iter().copied().filter(|_| rng.chance(3, 4)).collect();
                 keep.extend(gen_ids(rng, p, agreement, 1));
                 Ret::Retain(keep)
@@ -496,12 +513,12 @@ fn gen_op(rng: &mut Rng, p: &Pools, boundary_heavy: bool) -> Op {
             _ => Ret::Retain(vec![]),
         };
         Op::Sync { ident, from, to, entries, retain }
-    } else if r < 74 {
+    } else if r < 68 {
         let agreement = rng.below(2) as u8;
-        let attrs = match rng.below(6) {
+        let attrs = match rng.below(8) {
             0 => None,
             _ => {
-                let k = 1 + rng.below(3);
+                let k = 2 + rng.below(3);
                 Some((0..k).map(|_| rng.pick(YIELDABLE).to_string()).collect::<BTreeSet<_>>().into_iter().collect())
             }
         };
@@ -512,10 +529,15 @@ fn gen_op(rng: &mut Rng, p: &Pools, boundary_heavy: bool) -> Op {
             _ => IdentSpec::User(1),
         };
         let t = rng.below(100);
-        let target = if t < 45 {
-            *rng.pick(&p.a)
+        let target = if t < 40 {
+            *rng.pick(&p.a[4..8])
+        } else if t < 75 {
+            *rng.pick(&p.b[4..8])
         } else if t < 80 {
-            *rng.pick(&p.b)
+            {
+                let pool = if rng.chance(1, 2) { &p.a } else { &p.b };
+                *rng.pick(pool)
+            }
         } else if t < 88 {
             *rng.pick(&p.natives)
         } else if t < 94 {
@@ -526,7 +548,11 @@ fn gen_op(rng: &mut Rng, p: &Pools, boundary_heavy: bool) -> Op {
         let n = 1 + rng.below(2);
         let mut mods = vec![];
         for _ in 0..n {
-            let a = *rng.pick(&["legalname", "displayname", "description", "loginshell", "member", "name"]);
+            let a = if (target & 1) == 1 {
+                *rng.pick(&["description", "member", "name", "description", "member", "legalname"])
+            } else {
+                *rng.pick(&["legalname", "displayname", "description", "name", "legalname", "loginshell"])
+            };
             mods.push(match rng.below(14) {
                 0 => UMod::Purged("user_auth_token_session".into()),
                 1 => UMod::Purged("credential_update_intent_token".into()),
@@ -563,17 +589,10 @@ fn boundary_heavy_clean(rng: &mut Rng, boundary_heavy: bool) -> bool {
 
 fn seed_op(rng: &mut Rng, p: &Pools, agreement: u8) -> Op {
     let own = if agreement == 0 { &p.a } else { &p.b };
-    let batch: Vec<u128> = own[..4].to_vec();
+    let batch: Vec<u128> = own[4..8].to_vec();
     let mut entries: Vec<SEntry> = vec![];
-    for id in &batch {
-        let mut e = gen_entry(rng, p, agreement, &batch, true);
-        // same shape, fixed id
-        let was_group = (e.id & 1) == 1;
-        let is_group = (id & 1) == 1;
-        if was_group != is_group {
-            continue;
-        }
-        e.id = *id;
+    for (k, id) in batch.iter().enumerate() {
+        let mut e = gen_entry_id(rng, p, agreement, &batch[..k], true, Some(*id));
         e.ext = Some(format!("x{:x}", id & 0xffff_ffff_ffff));
         for (a, v) in e.attrs.iter_mut() {
             if a == "name" {
